@@ -116,8 +116,9 @@ def runChunks (st : SysSuiteState) : List Nat → List String → Option (SysSui
       let st' := { st with s := s', started := started, frame := st.frame + n }
       runChunks st' rest (spyLine st s' :: acc)
 
-/-- frames of resampler latency before a started static sound becomes audible (rate 1) -/
-def audibleLatency : Nat := 3
+/-- frames between a static sound passing its start gate and its first non-zero output (none:
+    `StaticSound::new` pre-fills the resampler) -/
+def audibleLatency : Nat := 0
 
 def showSounds (st : SysSuiteState) : String :=
   let ws := st.s.waiters ++ st.s.newWaiters
@@ -139,7 +140,7 @@ def showHandles (st : SysSuiteState) : String :=
 def sysEv (st : SysSuiteState) (e : Ev Float) : Option SysSuiteState :=
   (st.s.step clockFuel e).map (fun s => { st with s := s })
 
-def sysStep (st : SysSuiteState) (tok : List String) : Option (SysSuiteState × String) :=
+def sysStepCore (st : SysSuiteState) (tok : List String) : Option (SysSuiteState × String) :=
   match tok with
   | ["mgr", ibs, sr] => do
       let ibs ← nat? ibs; let sr ← nat? sr
@@ -190,6 +191,26 @@ def sysStep (st : SysSuiteState) (tok : List String) : Option (SysSuiteState × 
       | some (st2, lines) =>
         pure (st2, s!"{String.intercalate " " lines} | {showHandles st2} | {showSounds st2}")
   | _ => none
+
+/-- decode a `replay <ops joined by ';', blanks as '_'> :: comment` line into tokenised ops -/
+def decodeReplay (enc : String) : List (List String) :=
+  (enc.splitOn ";").filterMap (fun o =>
+    let toks := ((o.replace "_" " ").splitOn " ").filter (fun s => !s.isEmpty)
+    if toks.isEmpty then none else some toks)
+
+/-- run an encoded case from a fresh state; the trace line is the last line of that run -/
+def replayWith {σ : Type} (init : σ) (step : σ → List String → Option (σ × String)) (enc : String) : String :=
+  let r := (decodeReplay enc).foldl (fun (acc : σ × String × Bool) tok =>
+    if acc.2.2 then acc else
+    match step acc.1 tok with
+    | some (s', line) => (s', line, line.startsWith "fault")
+    | none => (acc.1, "bad-op", false)) (init, "", false)
+  r.2.1
+
+def sysStep (st : SysSuiteState) (tok : List String) : Option (SysSuiteState × String) :=
+  match tok with
+  | "replay" :: enc :: _ => some (st, replayWith ({} : SysSuiteState) sysStepCore enc)
+  | _ => sysStepCore st tok
 
 /-! ### suite `clocktear` -/
 
